@@ -1,4 +1,5 @@
 import GJS.Model.Gen
+import GJS.Model.Files
 /-
   C16 — output-shaping options change only what they name.
   Model level: each option is consulted at the modelled sites only (the sites in the source are a regenerated
@@ -38,5 +39,30 @@ theorem yaml_import_iff_extraImports (st : GenSt) (p a : String) :
 theorem onlyModels_enum_has_no_methods (d : Decl) (vals : List Json) (w ic : Bool) (cs : List (String × String))
     (h : d.body = .enum vals w ic cs false) : d.hasMethod = false := by
   simp [Decl.hasMethod, h]
+
+/-! ### --schema-root-type names the root type and nothing else (main.go's mapping assembly, fix R12) -/
+
+/-- where a schema goes never depends on the --schema-root-type flags -/
+theorem rootType_flag_never_changes_routing (pkgs outs roots roots' : List (String × String)) (dP dO id : String) :
+    let m := assembleMapping pkgs outs roots dP dO id
+    let m' := assembleMapping pkgs outs roots' dP dO id
+    m.outputName = m'.outputName ∧ m.packageName = m'.packageName := by
+  simp [assembleMapping]
+
+/-- naming ONLY the root type of a schema leaves it where an unmapped schema goes (before R12 its output name
+    was empty and the schema was not written at all) -/
+theorem rootType_alone_keeps_routing (roots : List (String × String)) (dP dO id : String) :
+    route [assembleMapping [] [] roots dP dO id] dO dP id = route [] dO dP id := by
+  simp [route, assembleMapping, lookupS]
+
+/-- … and it does set the root type -/
+theorem rootType_alone_sets_root (dP dO id name : String) (h : name ≠ "") :
+    rootOverride [assembleMapping [] [] [(id, name)] dP dO id] id = some name := by
+  simp [rootOverride, assembleMapping, lookupS, h]
+
+/-- a package without an output still means "emit nothing" -/
+theorem package_without_output_is_external (roots : List (String × String)) (dP dO id pkg : String) :
+    (assembleMapping [(id, pkg)] [] roots dP dO id).outputName = "" := by
+  simp [assembleMapping, lookupS]
 
 end GJS.Props.C16
